@@ -1,7 +1,7 @@
 import Reduino.Driver.Util
 import Reduino.Driver.Core
 import Reduino.Lang.Layout
-/- `layout|prog|<lines>` / `layout|py|<lines>` / `indent|<hex>` / `strip|<hex>` — a line is `indent:kind:trailing:tag` -/
+/- `layout|prog|<lines>` / `layout|py|<lines>` / `indent|<hex>` / `strip|<hex>` / `collect|<start>|<hex> <hex> …` — a line is `indent:kind:trailing:tag` -/
 namespace Reduino.Driver
 open Reduino.Lang.Layout
 
@@ -40,6 +40,10 @@ def handleLayout (fields : List String) : Option String :=
       else if which == "py" then some (showForest (pyBlocks lines))
       else some (showForest (reduinoBlocks lines))
   | ["indent", h] => some (toString (indentOf (unhex (h.drop 1).toString).toList))
+  | ["collect", start, ls] =>      -- `_collect_block(lines, start)` on raw lines: `<index after the block>|<hex> <hex> …`
+    let lines := (ls.splitOn " ").map fun h => (unhex (h.drop 1).toString).toList
+    let r := collectBlockAt lines start.toNat!
+    some (toString r.2 ++ "|" ++ " ".intercalate (r.1.map fun l => hexOf (String.ofList l)))
   | ["strip", h] => some (hexOf (String.ofList (stripInlineComment (unhex (h.drop 1).toString).toList)))
   | _ => none
 
